@@ -42,7 +42,7 @@ HARNESSES['k_mbi_magic'] = dict(MB2, file='lib.rs', kind='full', functions=['MAG
 # input family) for clauses neither verifier can reach.  Never counted as proved.
 # ---------------------------------------------------------------------------
 NATIVE = {
-    'n_inforeq_alloc_layout': dict(crate='multiboot2-header', file='information_request.rs', props=['C16'],
+    'n_inforeq_alloc_layout': dict(crate='multiboot2-header', file='information_request.rs', props=['C16', 'C12', 'C07'],
         bound='InformationRequestHeaderTag::new with 0..=5 requests under a layout-recording global allocator (6 cases)',
         functions=['new_boxed (allocation layout passed to alloc vs. Box drop), header type with alignment 4']),
     'n_find_header_window_limit': dict(crate='multiboot2-header', file='header.rs', props=['C13'],
